@@ -46,9 +46,12 @@ def check_vector(v):
     from bionumpy.encodings.string_encodings import StringEncoding
     recs, finalnl = v["recs"], v["finalnl"]
     names, seqs, text = _concrete(recs, finalnl, v.get("blankend", False))
-    d = os.path.join(v["_dir"], "c17_%d_%d" % (os.getpid(), v["_id"]))
+    # Replace: every file a worker process handles lives under the SAME path (written, indexed, read, replaced by the next one)
+    d = os.path.join(v["_dir"], "c17_%d" % os.getpid())
     os.makedirs(d, exist_ok=True)
     path = os.path.join(d, "g.fa")
+    if os.path.exists(path + ".fai"):
+        os.remove(path + ".fai")
     with open(path, "w") as f:
         f.write(text)
     assert len(text) == v["flen"]
@@ -99,6 +102,23 @@ def check_vector(v):
         en = np.array([b for _, _, b in ivs])
         res["ivs"] = ivs
         res["slow"] = outcome(lambda: fa.get_interval_sequences(Interval(chrom, st, en)).tolist())
+        # the same batch in an order where each interval starts at the contig-relative byte offset the previous one stopped at
+        # (preferably on another contig): every fetch positions the file handle itself (SeeksItself)
+        def boff(i, x):
+            w = recs[i]["W"]
+            return (x // w) * (w + 1) + x % w
+        left, chain = list(range(len(ivs))), []
+        while left:
+            if chain:
+                pi, _pa, pb = ivs[chain[-1]]
+                cand = [k for k in left if boff(ivs[k][0], ivs[k][1]) == boff(pi, pb)]
+                cand = [k for k in cand if ivs[k][0] != pi] or cand or left
+            else:
+                cand = left
+            chain.append(cand[0])
+            left.remove(cand[0])
+        res["chain"] = chain
+        res["slow-chained"] = outcome(lambda: fa.get_interval_sequences(Interval([chrom[k] for k in chain], st[chain], en[chain])).tolist())
         enc = StringEncoding(names[::-1] if len(names) > 1 else names)       # label order different from file order
         res["fast"] = outcome(lambda: fa.get_interval_sequences(Interval(enc.encode(chrom), st, en)).tolist())
         # one interval at a time, to localise
@@ -136,6 +156,11 @@ def check_vector(v):
                 at_ragged_end = (not finalnl)
                 rep("interval fetch (%s path, all intervals in one batch) differs from the substrings" % pathname, "fetch-" + pathname,
                     str(want)[:200], str(firstbad or res[pathname])[:300], index=kind, ragged_end=at_ragged_end)
+        n += len(want)
+        wantc = [want[k] for k in res["chain"]]
+        if res["slow-chained"] != ("ok", wantc):
+            rep("interval fetch (slow path, each interval starting at the offset where the previous one stopped) differs from the substrings",
+                "fetch-slow-chained", str(wantc)[:200], str(res["slow-chained"])[:300], index=kind, ragged_end=(not finalnl))
         for (i, a, b), w, g in zip(res["ivs"], want, res["single"]):
             n += 1
             if g != ("ok", w):
@@ -144,8 +169,6 @@ def check_vector(v):
                 rep("single interval fetch differs from the substring", "fetch-single", w, g, index=kind, ragged_end=ragged,
                     a_mod=a % recs[i]["W"], b_mod=b % recs[i]["W"])
                 break
-    import shutil
-    shutil.rmtree(d, ignore_errors=True)
     key = json.dumps([recs, finalnl])
     return {"n": n, "nt": [key] if multiline else [], "bad": bad}
 
@@ -215,17 +238,21 @@ def run(ctx):
     quick = ctx.tier == "quick"
     vectors = []
     for fn in (True, False):
-        consts = {"MaxRecs": 2, "MaxL": 4 if quick else 6, "MaxW": 3 if quick else 4, "FinalNL": fn, "BlankEnd": False}
-        invs = ["FetchCorrect" if fn else "FetchCorrectUnlessAtRaggedEnd", "OffsetsAgree", "Emit"]
+        consts = {"MaxRecs": 2, "MaxL": 4 if quick else 6, "MaxW": 3 if quick else 4, "FinalNL": fn, "BlankEnd": False, "MaxFetch": 1 if quick else 2}
+        invs = ["FetchCorrect" if fn else "FetchCorrectUnlessAtRaggedEnd", "OffsetsAgree", "SeeksItself", "Emit"]
         res = ctx.tlc("MC_C17", tag="MC_C17_%s" % ("nl" if fn else "nonl"), spec="Spec", constants=consts, invariants=invs, coverage=True)
-        ctx.require_actions(res, "MC_C17", ["FetchAny", "WholeAny"])
+        ctx.require_actions(res, "MC_C17", ["FetchAny", "WholeAny", "Replace"])
         vectors += res.vectors
+    if quick:
+        # batches of two fetches through one handle, smaller files
+        res = ctx.tlc("MC_C17", tag="MC_C17_batch", spec="Spec", constants={"MaxRecs": 2, "MaxL": 3, "MaxW": 2, "FinalNL": True, "BlankEnd": False, "MaxFetch": 2},
+                      invariants=["FetchCorrect", "SeeksItself"], keep_vectors=False)
     # the same files with an empty line after the last record
-    res = ctx.tlc("MC_C17", tag="MC_C17_blank", spec="Spec", constants={"MaxRecs": 2, "MaxL": 3 if quick else 5, "MaxW": 2 if quick else 3, "FinalNL": True, "BlankEnd": True},
+    res = ctx.tlc("MC_C17", tag="MC_C17_blank", spec="Spec", constants={"MaxRecs": 2, "MaxL": 3 if quick else 5, "MaxW": 2 if quick else 3, "FinalNL": True, "BlankEnd": True, "MaxFetch": 1},
                   invariants=["FetchCorrect", "OffsetsAgree", "Emit"])
     vectors += res.vectors
     if not quick:
-        res = ctx.tlc("MC_C17", tag="MC_C17_3recs", spec="Spec", constants={"MaxRecs": 3, "MaxL": 3, "MaxW": 2, "FinalNL": True, "BlankEnd": False},
+        res = ctx.tlc("MC_C17", tag="MC_C17_3recs", spec="Spec", constants={"MaxRecs": 3, "MaxL": 3, "MaxW": 2, "FinalNL": True, "BlankEnd": False, "MaxFetch": 2},
                       invariants=["FetchCorrect", "OffsetsAgree", "Emit"])
         vectors += res.vectors
     for i, v in enumerate(vectors):
@@ -234,7 +261,7 @@ def run(ctx):
     ctx.sample({k: vectors[7][k] for k in ("recs", "finalnl", "index")})
     ctx.absorb(core.pmap(check_vector, vectors, chunk=10))
     # a file of several reader chunks (the index is built chunk by chunk): index by the arithmetic definition, TLC-checked above
-    big = ctx.tlc("MC_C17big", tag="MC_C17big", spec="BigSpec", constants={"MaxRecs": 1, "MaxL": 1, "MaxW": 1, "FinalNL": True, "BlankEnd": False}, invariants=["EmitBig"])
+    big = ctx.tlc("MC_C17big", tag="MC_C17big", spec="BigSpec", constants={"MaxRecs": 1, "MaxL": 1, "MaxW": 1, "FinalNL": True, "BlankEnd": False, "MaxFetch": 1}, invariants=["EmitBig"])
     bv = dict(big.vectors[0], _dir=ctx.work)
     ctx.absorb([check_big(bv)])
     ctx.exhaustive = True
